@@ -7,8 +7,11 @@ func init() {
 		func(r *Report) {
 			ruleLocks(r)
 			ruleDBIndexThreadSafe(r)
+			ruleGuardedEscape(r)
 			ruleEmptyIsAbsent(r)
+			ruleValueOpaque(r)
 			ruleHandoff(r)
+			ruleSwapAfterRotate(r)
 			ruleRWMemstore(r)
 			ruleReaderRebuilt(r)
 			ruleValueBuffersImmutable(r)
